@@ -15,3 +15,6 @@ pub use encoding::SupportedEncoding;
 pub use filter_body::FilterBodyAction;
 pub use filter_header::FilterHeaderAction;
 pub use html_filter_body::HtmlFilterBodyAction;
+
+#[cfg(feature = "verif-hooks")]
+pub use html_body_action::verif_hooks as verif_selector_log;
